@@ -715,14 +715,9 @@ func c20(c *core.Ctx, r *core.Report) {
 	sort.Slice(gos, func(i, j int) bool { return core.FnName(gos[i].fn) < core.FnName(gos[j].fn) })
 	r.Count("go_statements", len(gos))
 	known := map[string]bool{}
-	for _, f := range c.Invokers(ro.CloserClose) {
-		if f.Parent() != nil {
-			known[core.FnName(f.Parent())] = true
-		}
-	}
-	for _, f := range c.Invokers(ro.DRPPPostProcess) {
-		if f.Parent() != nil {
-			known[core.FnName(f.Parent())] = true
+	for _, f := range append(c.Invokers(ro.CloserClose), c.Invokers(ro.DRPPPostProcess)...) {
+		for _, g := range goStatementsOf(f) {
+			known[core.FnName(g.Parent())] = true
 		}
 	}
 	for _, g := range gos {
